@@ -51,23 +51,23 @@ def seq_axioms(elem_ty):
         return z3.ForAll([i, j], z3.Implies(z3.And(0 <= i, i < j, j < th.Len(s)), th.At(s, i) != th.At(s, j)))
 
     return [
-        z3.ForAll([a], distinct(D(a)), patterns=[D(a)]),
-        z3.ForAll([a, x], th.Has(D(a), x) == th.Has(a, x), patterns=[th.Has(D(a), x)]),
-        z3.ForAll([a], z3.Implies(distinct(a), D(a) == a), patterns=[D(a)]),
-        z3.ForAll([a], SUB(D(a), a), patterns=[D(a)]),
-        z3.ForAll([a], th.Len(D(a)) <= th.Len(a), patterns=[D(a)]),
-        z3.ForAll([a], (th.Len(D(a)) == 0) == (th.Len(a) == 0), patterns=[D(a)]),
+        SQ.forall([a], distinct(D(a)), patterns=[D(a)]),
+        SQ.forall([a, x], th.Has(D(a), x) == th.Has(a, x), patterns=[th.Has(D(a), x)]),
+        SQ.forall([a], z3.Implies(distinct(a), D(a) == a), patterns=[D(a)]),
+        SQ.forall([a], SUB(D(a), a), patterns=[D(a)]),
+        SQ.forall([a], th.Len(D(a)) <= th.Len(a), patterns=[D(a)]),
+        SQ.forall([a], (th.Len(D(a)) == 0) == (th.Len(a) == 0), patterns=[D(a)]),
         # first-appearance order: the de-duplicated prefix is a prefix
         z3.ForAll([a, b], z3.And(th.Len(D(a)) <= th.Len(D(th.App(a, b))), th.Take(D(th.App(a, b)), th.Len(D(a))) == D(a)),
                   patterns=[D(th.App(a, b))]),
         # subsequence: reflexive, transitive, membership- and length-monotone
-        z3.ForAll([a], SUB(a, a), patterns=[SUB(a, a)]),
-        z3.ForAll([a, b, c], z3.Implies(z3.And(SUB(a, b), SUB(b, c)), SUB(a, c)), patterns=[z3.MultiPattern(SUB(a, b), SUB(b, c))]),
-        z3.ForAll([a, b, x], z3.Implies(z3.And(SUB(a, b), th.Has(a, x)), th.Has(b, x)), patterns=[z3.MultiPattern(SUB(a, b), th.Has(a, x))]),
-        z3.ForAll([a, b], z3.Implies(SUB(a, b), th.Len(a) <= th.Len(b)), patterns=[SUB(a, b)]),
-        z3.ForAll([a], SUB(th.Empty, a), patterns=[SUB(th.Empty, a)]),
+        SQ.forall([a], SUB(a, a), patterns=[SUB(a, a)]),
+        SQ.forall([a, b, c], z3.Implies(z3.And(SUB(a, b), SUB(b, c)), SUB(a, c)), patterns=[z3.MultiPattern(SUB(a, b), SUB(b, c))]),
+        SQ.forall([a, b, x], z3.Implies(z3.And(SUB(a, b), th.Has(a, x)), th.Has(b, x)), patterns=[z3.MultiPattern(SUB(a, b), th.Has(a, x))]),
+        SQ.forall([a, b], z3.Implies(SUB(a, b), th.Len(a) <= th.Len(b)), patterns=[SUB(a, b)]),
+        SQ.forall([a], SUB(th.Empty, a), patterns=[SUB(th.Empty, a)]),
         # a subsequence of a duplicate-free sequence is duplicate-free and keeps the relative order
-        z3.ForAll([a, b], z3.Implies(z3.And(SUB(a, b), distinct(b)), distinct(a)), patterns=[SUB(a, b)]),
+        SQ.forall([a, b], z3.Implies(z3.And(SUB(a, b), distinct(b)), distinct(a)), patterns=[SUB(a, b)]),
         z3.ForAll([a, b, i, j], z3.Implies(z3.And(SUB(a, b), distinct(b), 0 <= i, i < j, j < th.Len(a)),
                                            th.Idx(b, th.At(a, i)) < th.Idx(b, th.At(a, j))),
                   patterns=[z3.MultiPattern(SUB(a, b), th.At(a, i), th.At(a, j))]),
@@ -96,14 +96,14 @@ def card_axioms(elem_ty):
     x, y = z3.Consts("cd!x cd!y", elem_ty.sort())
     E = z3.EmptySet(elem_ty.sort())
     return [
-        z3.ForAll([s], C(s) >= 0, patterns=[C(s)]),
+        SQ.forall([s], C(s) >= 0, patterns=[C(s)]),
         C(E) == 0,
-        z3.ForAll([s], z3.Implies(C(s) == 0, s == E), patterns=[C(s)]),
-        z3.ForAll([x], C(z3.SetAdd(E, x)) == 1, patterns=[z3.SetAdd(E, x)]),
+        SQ.forall([s], z3.Implies(C(s) == 0, s == E), patterns=[C(s)]),
+        SQ.forall([x], C(z3.SetAdd(E, x)) == 1, patterns=[z3.SetAdd(E, x)]),
         # a set all of whose members are equal to one of its members is a singleton
         z3.ForAll([s, x], z3.Implies(z3.And(z3.IsMember(x, s), z3.ForAll([y], z3.Implies(z3.IsMember(y, s), y == x))), C(s) == 1),
                   patterns=[z3.MultiPattern(C(s), z3.IsMember(x, s))]),
-        z3.ForAll([s], z3.Implies(C(s) == 1, z3.Exists([x], s == z3.SetAdd(E, x))), patterns=[C(s)]),
+        SQ.forall([s], z3.Implies(C(s) == 1, SQ.exists([x], s == z3.SetAdd(E, x))), patterns=[C(s)]),
     ]
 
 
@@ -115,7 +115,7 @@ def oset_sub(eng, a, other, n, st):
     r = eng.fresh(st, TSeq(ety, nodup=True), "osub")
     x = z3.Const("os!x", ety.sort())
     inother = eng.contains(other, V(ety, x), n, st)
-    st.assume(z3.ForAll([x], th.Has(r.t, x) == z3.And(th.Has(a.t, x), z3.Not(inother)), patterns=[th.Has(r.t, x)]))
+    st.assume(SQ.forall([x], th.Has(r.t, x) == z3.And(th.Has(a.t, x), z3.Not(inother)), patterns=[th.Has(r.t, x)]))
     st.assume(subseq_fn(ety)(r.t, a.t))
     eng.uses_axioms(seq_axioms, ety)
     return r
